@@ -3,6 +3,7 @@ package ircomp
 import (
 	"github.com/arnodel/golua/code"
 	"github.com/arnodel/golua/ir"
+	"math"
 )
 
 type ConstantCompiler struct {
@@ -70,6 +71,10 @@ func (kc *ConstantCompiler) ProcessCode(c ir.Code) {
 		instr.ProcessInstr(ic)
 	}
 	end := kc.builder.Offset()
+	// The program counter and jump offsets are encoded on 16 bits (signed).
+	if end-start > math.MaxInt16 {
+		panic(newPanic("function too long"))
+	}
 	kc.addCompiled(code.Code{
 		Name:         c.Name,
 		StartOffset:  start,
